@@ -722,7 +722,7 @@ func bGet(intp *Interpreter) error {
 		if index < 0 || index >= Integer(len(obj)) {
 			return intp.e(eRangecheck, "get: index out of bounds")
 		}
-		intp.Stack = append(intp.Stack, obj[index])
+		intp.Stack = append(intp.Stack, Integer(obj[index]))
 	default:
 		return intp.e(eTypecheck, "get: invalid argument type %T", obj)
 	}
